@@ -500,8 +500,7 @@ func (e *kvElection) attemptPriorityTakeover(payloadBytes []byte) error {
 	}
 
 	if e.cfg.Priority <= currentPayload.Priority {
-		e.leaderID.Store(currentPayload.ID)
-		e.revision.Store(entry.Revision())
+		e.observeLeader(currentPayload.ID, entry.Revision())
 		return fmt.Errorf("current leader has equal or higher priority: %d >= %d", currentPayload.Priority, e.cfg.Priority)
 	}
 
